@@ -41,22 +41,28 @@ import (
 )
 
 const (
-	tyNone    = 0
-	tyEGF     = 1
-	tySend    = 2
-	tyXParams = 3
-	tyToggle  = 4
-	tyText    = 5
-	tyAny     = 99
+	tyNone     = 0
+	tyEGF      = 1
+	tySend     = 2
+	tyXParams  = 3
+	tyToggle   = 4
+	tyText     = 5
+	tyBankPar  = 6 // same message NAME as tyXParams / tyErc20Par / tyStakePar, another module
+	tyErc20Par = 7
+	tyStakePar = 8
+	tyAny      = 99
 )
 
 var typeURL = map[int]string{
-	tyEGF:     sdk.MsgTypeURL(&distrtypes.MsgCommunityPoolSpend{}),
-	tySend:    sdk.MsgTypeURL(&banktypes.MsgSend{}),
-	tyXParams: sdk.MsgTypeURL(&crosschaintypes.MsgUpdateParams{}),
-	tyToggle:  sdk.MsgTypeURL(&erc20types.MsgToggleTokenConversion{}),
-	tyText:    sdk.MsgTypeURL(&govv1.MsgExecLegacyContent{}),
-	tyAny:     "/google.protobuf.Any",
+	tyEGF:      sdk.MsgTypeURL(&distrtypes.MsgCommunityPoolSpend{}),
+	tySend:     sdk.MsgTypeURL(&banktypes.MsgSend{}),
+	tyXParams:  sdk.MsgTypeURL(&crosschaintypes.MsgUpdateParams{}),
+	tyToggle:   sdk.MsgTypeURL(&erc20types.MsgToggleTokenConversion{}),
+	tyText:     sdk.MsgTypeURL(&govv1.MsgExecLegacyContent{}),
+	tyBankPar:  sdk.MsgTypeURL(&banktypes.MsgUpdateParams{}),
+	tyErc20Par: sdk.MsgTypeURL(&erc20types.MsgUpdateParams{}),
+	tyStakePar: sdk.MsgTypeURL(&stakingtypes.MsgUpdateParams{}),
+	tyAny:      "/google.protobuf.Any",
 }
 
 var e18 = new(big.Int).Exp(big.NewInt(10), big.NewInt(18), nil)
@@ -124,6 +130,7 @@ type hist struct {
 	minted     *big.Int
 	nrcpt      int
 	halted     bool
+	noCorr     bool // the history contains a message the model has no action for: monitor only
 
 	maxOpenTypes    int
 	govSendExecuted bool
@@ -708,6 +715,33 @@ func (h *hist) buildMsgs(kind string, info *propInfo) ([]sdk.Msg, []mMsg) {
 		}
 		toggle(false)
 		info.HasFail = true
+	case "mixed-samename":
+		// MsgUpdateParams of different modules: same Go type name (`*types.MsgUpdateParams`), different type URLs
+		sameName := []func(){
+			xparams,
+			func() {
+				msgs = append(msgs, &banktypes.MsgUpdateParams{Authority: h.gov, Params: h.c.App.BankKeeper.GetParams(h.c.Ctx)})
+				mm = append(mm, mMsg{Type: tyBankPar, Act: fmt.Sprintf("AOk %d", tag)})
+			},
+			func() {
+				msgs = append(msgs, &erc20types.MsgUpdateParams{Authority: h.gov, Params: h.c.App.Erc20Keeper.GetParams(h.c.Ctx)})
+				mm = append(mm, mMsg{Type: tyErc20Par, Act: fmt.Sprintf("AOk %d", tag)})
+			},
+			func() {
+				sp, err := h.c.App.StakingKeeper.GetParams(h.c.Ctx)
+				lib.Must(err)
+				msgs = append(msgs, &stakingtypes.MsgUpdateParams{Authority: h.gov, Params: sp})
+				mm = append(mm, mMsg{Type: tyStakePar, Act: fmt.Sprintf("AOk %d", tag)})
+			},
+		}
+		perm := r.Perm(len(sameName))
+		n := 2 + r.Intn(2)
+		if r.Chance(30) {
+			sameName[perm[0]]() // the first type twice, then another one
+		}
+		for i := 0; i < n; i++ {
+			sameName[perm[i]]()
+		}
 	case "mixed":
 		switch r.Intn(3) {
 		case 0:
@@ -790,6 +824,21 @@ func (h *hist) opSubmitSpend(proposer int64, coins sdk.Coins, amt *big.Int) {
 	})
 }
 
+// gov MsgDeposit with the governance module account itself as depositor, into proposal `target`:
+// the account "deposits" coins it holds for other proposals — a record with no new funds behind it.
+// The model has no action for it (what happens when the target closes depends on the address order
+// of the refund loop); such histories are evaluated by the monitor only.
+func (h *hist) opSubmitGovDeposit(proposer int64, target uint64, amount, amt *big.Int) {
+	h.noCorr = true
+	h.opSubmitWith("govdeposit", proposer, amt, false, false, func(info *propInfo) ([]sdk.Msg, []mMsg) {
+		info.GovSend = new(big.Int) // a spend of the module account's holdings, nothing leaves it
+		info.sendTo = -7
+		m := &govv1.MsgDeposit{ProposalId: target, Depositor: h.gov, Amount: sdk.NewCoins(sdk.NewCoin(denomFX, sdkmath.NewIntFromBigInt(amount)))}
+		info.Types, info.URLs = []int{9}, []string{sdk.MsgTypeURL(m)}
+		return []sdk.Msg{m}, []mMsg{{Type: 9, Act: "AFail"}}
+	})
+}
+
 // a bank send of `amount` from the governance module account to account `to`
 func (h *hist) opSubmitSend(proposer, to int64, amount, amt *big.Int) {
 	h.opSubmitWith("send", proposer, amt, false, false, func(info *propInfo) ([]sdk.Msg, []mMsg) {
@@ -841,7 +890,7 @@ func (h *hist) opSubmitWith(kind string, proposer int64, amt *big.Int, expedited
 				h.fail("C15:mixed-types-accepted", fmt.Sprintf("proposal %d accepted with message types %v", id, info.URLs))
 			}
 		}
-	} else if kind == "mixed" && code != 6 {
+	} else if strings.HasPrefix(kind, "mixed") && code != 6 {
 		h.logf("  (mixed proposal refused with code %d)", code)
 	}
 	o := h.record(opc, code)
@@ -1651,7 +1700,7 @@ func (h *hist) propObs(id uint64) *pObs {
 
 func (h *hist) pickKind() string {
 	r := h.r
-	kinds := []string{"text", "text", "egf", "egf", "xparams", "xparams", "toggle", "toggle", "toggle-fail", "toggle-fail", "egf-fail", "egf-fail", "send-fail", "none", "mixed", "badsigner"}
+	kinds := []string{"text", "text", "egf", "egf", "xparams", "xparams", "toggle", "toggle", "toggle-fail", "toggle-fail", "egf-fail", "egf-fail", "send-fail", "none", "mixed", "mixed-samename", "badsigner"}
 	if h.class == "govsend" {
 		kinds = append(kinds, "send", "send", "send", "send")
 	}
@@ -2171,7 +2220,9 @@ func finish(rep *lib.Report, h *hist, items *[]string, known map[string]bool) {
 			rep.Fail(f)
 		}
 	}
-	*items = append(*items, h.caseCoq())
+	if !h.noCorr {
+		*items = append(*items, h.caseCoq())
+	}
 }
 
 // EqualFold on registered message type URLs coincides with equality (the model's message type ids)
